@@ -167,5 +167,34 @@ PROPS["C12"] = dict(
     assumptions=["system libogg 1.3.5 is correct", "ground truth = standalone packet-level decode of each link"],
 )
 
+PROPS["C15"] = dict(
+    engine="rc", engine_name="rc-tape", sources=["props/c15.cpp"], level="exploration", design_ref="3.16",
+    quick=dict(cases=150), thorough=dict(cases=6000),
+    technique="property-based testing (rapidcheck tapes): generated argument tuples and vorbis_encode_ctl sequences through all four set-up entry points; oracle on return codes, cleared structures, reported channels/rate, a decodable header triple and a short encode; ASan/UBSan/LSan",
+    level_text="Generated channels in [-1,300], rates in [-1,2^31-1] dense around the template boundaries (+-2), qualities incl. out-of-range/NaN/inf, bitrate triples incl. 0, -1, inverted and huge, 0..8 vorbis_encode_ctl requests (all 12 request "
+               "numbers, unknown numbers, NULL where defined, values at and beyond each clamp) before and after vorbis_encode_setup_init. Oracle: only documented return codes; failed one-step calls leave vorbis_info all-zero; vorbis_info_clear "
+               "twice is safe and leaves zeros; nothing leaks (per-case LeakSanitizer); SET requests after setup_init are refused; success implies the requested channels and rate, legal block sizes, working analysis_init/headerout, headers the "
+               "decoder accepts, and an encode of 0, 1, bs1-1 or 3*bs1+7 samples without memory errors.",
+    level_note="Trusted: clang sanitizers (UBSan subset of DESIGN 2.1). vorbis_encode_ctl is never called on a cleared vorbis_info or with NULL for GET requests that do not define it (outside the API contract).",
+    rule="case = (entry point, channels, rate, quality or bitrate triple, ctl sequence, M, signal); non-trivial = a rejected set-up, or a successful one outside the suite's grid (rate not in the six tested, channels > 8, managed or three-step); distinct by hash of the case description",
+    require_labels=["set-up refused", "set-up succeeded", "init_vbr", "init (managed)", "three-step vbr", "three-step managed", "ctl SET accepted before setup_init", "ctl after setup_init", "more than 8 channels", "successful set-up outside the suite's grid", "nominal bitrate at the edge of the accepted interval"],
+    assumptions=["documented error codes of the set-up calls: OV_EINVAL, OV_EIMPL, OV_EFAULT"],
+)
+
+PROPS["C13"] = dict(
+    engine="rc", engine_name="rc-tape", sources=["props/c13.cpp"], level="exploration", design_ref="3.14", tape_scale=6,
+    quick=dict(cases=900), thorough=dict(cases=15000),
+    technique="property-based testing (rapidcheck tapes): generated usage scenarios of the encoder, the packet decoder and vorbisfile that stop at any stage or take an error path, always ending in the documented clear calls made twice; per-case LeakSanitizer + AddressSanitizer as the memory oracle, plus zeroed-object and close-callback accounting checks",
+    level_text="Three scenario families from one tape: (a) encoder: every template family incl. 5.1 and 255 channels, VBR/managed/three-step with ctl tweaks, rejected set-ups, three-step abandoned before setup_init, stop after info_init / set-up / "
+               "analysis_init / block_init / headerout / k blocks with or without end of input; (b) packet decoder: encoder and synthetic headers, 0..3 headers submitted with truncation at any byte, bit flips, field replacement or a garbage tail, "
+               "vorbis_synthesis_init on whatever resulted, 0..m packets; (c) vorbisfile: intact, truncated, bit-flipped, page-dropped, header-cut and non-Ogg inputs, seekable / streaming / ov_test (+ov_test_open) opens with injected "
+               "callback faults, reads, seeks, lapped seeks, half rate. After the clear calls (made twice) every object must be all-zero, no heap block of the case may remain (LeakSanitizer after every case), nothing is freed twice "
+               "(ASan), and the close callback ran exactly once for successful opens and never for failed ones.",
+    level_note="Trusted: clang ASan/LSan. Harness objects are pre-filled with 0x5b so that use of an uninitialised structure by an error path is visible.",
+    rule="case = one scenario; non-trivial = a scenario that took an error path or stopped before normal completion (rejected set-up, abandoned encode, fewer than 3 headers accepted, failed or damaged open); distinct by hash of the scenario description",
+    require_labels=["encoder set-up rejected", "encoder abandoned mid-stream", "5.1 template", "header refused", "synthesis_init failed", "decoder initialised", "open failed", "damaged stream opened", "ov_test without ov_test_open, cleared", "three-step set-up abandoned before setup_init"],
+    assumptions=["system libogg 1.3.5 is correct"],
+)
+
 NOT_APPLICABLE = {}
 HOOK_COMMITS = []
